@@ -24,7 +24,7 @@ RULE = (
     "shape} x seeds 0..5 x test sizes. SplineCV: every permutation of the damping grid {1e-4, 1e-1, 1e2} x mindists x cv x delayed "
     "(explorer installed as the dask scheduler, every task order / bounded interleavings). Non-trivial: the three wrong alternatives "
     "(scored on train rows, fitted on all rows, unweighted) differ from the right score by > 1e-3."
-    " Added axes: mixed-layout 2-D input, permuted-index Series, dataset at UTM offsets, a cross-validator with train != complement(test), a splitter whose draws differ from call to call (scores must come from one draw), environment-driven client (deviation bound 1 / 2), caller reconfiguring the estimator between graph construction and computation, line-granular interleavings over every line of the library (bound 1 quick; bound 2 and Vector / Chain / three tasks thorough)."
+    " Added axes: mixed-layout 2-D input, permuted-index Series, dataset at UTM offsets, a cross-validator with train != complement(test), a splitter whose draws differ from call to call (scores must come from one draw), exact-zero weights, a make_scorer object carrying a metric keyword, environment-driven client (deviation bound 1 / 2), caller reconfiguring the estimator between graph construction and computation, line-granular interleavings over every line of the library (bound 1 quick; bound 2 and Vector / Chain / three tasks thorough)."
 )
 ASSUMPTIONS = ["scikit-learn's public metric functions are the metric oracle; the cv object's own split() provides the splits",
                "interleavings are explored at method boundaries of the estimator (fit / score) under the GIL; a real distributed client is replaced "
@@ -38,7 +38,7 @@ def bounds(tier, seed):
 
 EST = ["T0", "T1", "S", "K2", "V"]
 CVS = ["default", "kfold2", "kfold3", "shuffle", "blockkfold", "blockshuffle", "shuffle_tt"]
-SCORERS = [None, "r2", "neg_mean_squared_error", "neg_mean_absolute_error", "callable"]
+SCORERS = [None, "r2", "neg_mean_squared_error", "neg_mean_absolute_error", "callable", "callable_kw"]
 
 
 def cases(tier, seed):
@@ -53,6 +53,10 @@ def cases(tier, seed):
                 yield dict(kind="score", ds=ds, est=est, w=w)
                 # a splitter whose draws differ from call to call: every score must pair the training and the test rows of ONE draw
                 yield dict(kind="cvs", ds=ds, est=est, w=w, cv="stateful", scoring=0, mode="serial")
+            # weights that are exactly zero for some rows (round 9, seed C12-17: zero-weight training rows dropped before the fit - they still
+            # are training rows: a Spline places forces there)
+            for cv in ("kfold3", "blockkfold"):
+                yield dict(kind="cvs", ds=ds, est=est, w="zero", cv=cv, scoring=0, mode="serial")
         # 2-D gridded input whose arrays do not share one memory layout (C-ordered coordinates, Fortran-ordered data, transposed
         # weights): the row selection must follow the logical (C) order of every array. Added after seed C12-2.
         for est in EST:
@@ -260,6 +264,10 @@ def make_scoring(i):
     sc = SCORERS[i]
     if sc == "callable":
         return make_scorer(median_absolute_error, greater_is_better=False)
+    if sc == "callable_kw":
+        # a scorer that carries a keyword argument of its metric (round 9, seed C12-18: the kwargs stored by make_scorer dropped)
+        from sklearn.metrics import mean_pinball_loss
+        return make_scorer(mean_pinball_loss, greater_is_better=False, alpha=0.9)
     return sc
 
 
@@ -273,6 +281,8 @@ def metric(i, y, p, w):
         return -M.mean_squared_error(y, p, sample_weight=w)
     if sc == "neg_mean_absolute_error":
         return -M.mean_absolute_error(y, p, sample_weight=w)
+    if sc == "callable_kw":
+        return -M.mean_pinball_loss(y, p, sample_weight=w, alpha=0.9)
     return -M.median_absolute_error(y, p, sample_weight=w)
 
 
@@ -397,6 +407,9 @@ def run(case, rec):
         wts = None
         if case["w"]:
             wts = (w[0], w[1]) if vec else w[0]
+        if case["w"] == "zero":
+            z_ = lambda a_: np.where(np.arange(a_.size) % 4 == 1, 0.0, a_)
+            wts = (z_(w[0]), z_(w[1])) if vec else z_(w[0])
         vcoords, vdata, vwts = (e, n), data, wts
         if case.get("shape") == "2dmix":
             shp = (2, e.size // 2)
